@@ -185,7 +185,7 @@ def extract(exp, name, attrs):
     return info
 
 
-def tail_rules(attrs, await_interference=False, cache_static=None):
+def tail_rules(attrs, await_interference=False, cache_static=None, stats_static=None):
     rules = [
         Rule('R9.body_closure', tokpat(r'\( \| \| (\{.*?\}) \) \( \)') , None, 'closure call around the user body -> the block itself, preceded by the effect-log call fx_body(fx)', re.S),
         Rule('R9.body_async', tokpat(r'\( async (\{.*?\}) \) \. await'), None, 'async block + .await around the user body -> the block itself, preceded by fx_body(fx) (suspension: see the await obligations)', re.S),
@@ -199,6 +199,8 @@ def tail_rules(attrs, await_interference=False, cache_static=None):
     if cache_static:
         # the store static handed to ...Cache::new(&STATIC, ..) and the `cache` field of __cache are the same object
         rules.append(R('R9.static_alias', r'\b%s \. ' % cache_static, '__cache.cache.', 'direct use of the store static -> the `cache` field of __cache (same object: first constructor argument)'))
+    if stats_static:
+        rules.append(R('R9.static_alias_stats', r'\b%s \. ' % stats_static, '__cache.stats.', 'direct use of the statistics static -> the `stats` field of __cache (same object: last constructor argument)'))
     for key in ('cache_if', 'invalidate_on'):
         if attrs.get(key):
             rules.append(R('R9.pred:' + attrs[key], r'\b%s \( (& __key , & \w+) \)' % attrs[key], r'%s(\1, fx)' % attrs[key],
@@ -206,8 +208,8 @@ def tail_rules(attrs, await_interference=False, cache_static=None):
     return rules
 
 
-def apply_tail_rules(tail, attrs, log, base_line, qual, await_interference=False, cache_static=None):
-    for r in tail_rules(attrs, await_interference, cache_static):
+def apply_tail_rules(tail, attrs, log, base_line, qual, await_interference=False, cache_static=None, stats_static=None):
+    for r in tail_rules(attrs, await_interference, cache_static, stats_static):
         if r.repl is None:
             if await_interference:
                 def repl(m):
